@@ -278,6 +278,9 @@ func extraSnippets() map[string]string {
 		// package-level objects with names that are special elsewhere (a variable called init is
 		// declared in the file scope, a function called init is not; main, len and nil as ordinary names)
 		"scope-names": "package p\n\nvar init = 0\n\nconst zero, main = iota, 1\n\ntype len struct{ nil int }\n\nfunc get() int { return init + main }\n\nfunc init() {}\n\nfunc _() {}\n\nvar _ = get\n",
+		"type-aliases": "package p\n\ntype A = B\n\ntype (\n\tC = []int\n\tD = map[string]A\n\tE = func(A) C\n)\n\nfunc f() {\n\ttype local = struct{ x int }\n\tvar _ local\n}\n",
+		"type-literals-in-lists": "package p\n\nfunc f(x interface{}) {\n\tswitch x.(type) {\n\tcase int, interface{ M() }, struct{ a int }, func(int) error, chan int, map[string]int, []int, *T:\n\t}\n\t_ = new(interface{})\n\t_ = G[int, interface{ N() }]{}\n\tg(chan<- int(nil), (<-chan int)(nil), [...]int{1}, x.(interface{ M() }))\n\tfor a[0] = range m {\n\t}\n\tfor s.k, s.v = range m {\n\t}\n\tfor k = range c {\n\t}\n\t_ = s[1:2:3]\n}\n",
+		"list-elements": "package p\n\nimport \"io\"\n\nvar readers = []io.Reader{\n\tsrc.(io.Reader), // primary\n\talt.(io.Reader), /* secondary */\n\t(last),\n}\n\nvar sums = []int{\n\t(1 + 2),\n\t3,\n\t(4 * 5),\n}\n\nfunc f() {\n\tg(\n\t\ta.(T), // first\n\t\t(b),\n\t)\n\tresults := make(\n\t\tchan result, workers*2)\n\t_ = results\n\tgoto L\nL:\n\tio.Copy(w, r)\n}\n",
 		"empty-stmt":   "package p\n\nfunc f() {\n\t;\n\tfor {\n\t\t;\n\t}\nL:\n\t;\n\tgoto L\n}\n",
 		"generics":     "package p\n\ntype S[T any, U comparable] struct {\n\ta T\n\tb map[U][]T\n}\n\nfunc F[T ~int | ~string, U any](x T, y ...U) (r T) {\n\tvar s S[T, int]\n\t_ = s\n\treturn G[T, U](x)\n}\n",
 		"literals":     "package p\n\nvar (\n\ta = 1\n\tb = 1.5e3\n\tc = 'x'\n\td = \"s\"\n\te = `raw\nstring`\n\tf = 2i\n\tg = [...]int{1, 2: 3}\n\th = map[string]struct{ X, Y int }{\"k\": {1, 2}}\n\ti = func(x int) (y int) { return x }\n\tj = <-ch\n\tk = (*T)(nil)\n\tl = x.(type1)\n\tm = s[1:2:3]\n\tn = &T{A: 1}\n)\n",
